@@ -297,7 +297,7 @@ MtpCloseAllowedExact(s, k) ==
   LET m == s.perp.mtps[k]
       px == TradingPrice(s, m) IN
   \/ m.probeHealth \prec Zero
-  \/ m.probeHealth \preceq Widen(s.perp.safetyFactor, 1)
+  \/ m.probeHealth \preceq s.perp.safetyFactor
   \/ px = "none"
   \/ m.stopLoss \succ Zero /\ (IF m.side = "long" THEN px \preceq m.stopLoss ELSE px \succeq m.stopLoss)
   \/ m.takeProfit \succ Zero /\ (IF m.side = "long" THEN px \succeq m.takeProfit ELSE px \preceq m.takeProfit)
